@@ -37,6 +37,18 @@ def templates():
     vb2 = rc.tlv(0x30, rc.tlv(0x0D, bytes([4, 0])) + rc.enc_int(2))
     pdu = rc.tlv(0xA2, rc.enc_int(0x1234567) + rc.enc_int(0) + rc.enc_int(0) + rc.tlv(0x30, vb1 + vb2))
     out.append(dict(name="v2c-reloid", ver="v2c", cfg="v2c", b=list(rc.enc_community_msg("v2c", b"public", pdu))))
+    # relative OID names with 0..3 content octets, as first / second varbind, after bases of 1 / 2 / 9 octets
+    k = 0
+    for base in ([43], [43, 6], list(rc.oid_content(n1))):
+        for rel in ([], [1], [1, 2], [1, 2, 3], [129, 1], [129]):
+            for first in (False, True):
+                k += 1
+                vbs = b""
+                if not first:
+                    vbs += rc.tlv(0x30, rc.tlv(0x06, bytes(base)) + rc.enc_int(1))
+                vbs += rc.tlv(0x30, rc.tlv(0x0D, bytes(rel)) + rc.enc_int(2))
+                pdu = rc.tlv(0xA2, rc.enc_int(0x1234567) + rc.enc_int(0) + rc.enc_int(0) + rc.tlv(0x30, vbs))
+                out.append(dict(name="v2c-reloid-%d" % k, ver="v2c", cfg="v2c", b=list(rc.enc_community_msg("v2c", b"public", pdu)), nomutate=True))
     # plaintext scoped PDUs (mutated, then encrypted by the driver: the privacy decrypt path)
     sc = rc.enc_scoped(agent.engine, b"", rc.enc_pdu("response", 0x1234567, 0, 0, [(n1, ("int", 3))]))
     out.append(dict(name="scoped-plain", ver="scoped", cfg="v3-md5-des", b=list(sc)))
@@ -47,7 +59,7 @@ def corpus_for(chk=None):
     t = templates()
     d = os.path.join(env.BUILD, "gen")
     os.makedirs(d, exist_ok=True)
-    blob = "\n".join(json.dumps(dict(name=x["name"], ver=x["ver"] if x["ver"] != "scoped" else "v2c", b=x["b"])) for x in t) + "\n"
+    blob = "\n".join(json.dumps(dict(name=x["name"], ver=x["ver"] if x["ver"] != "scoped" else "v2c", b=x["b"])) for x in t if not x.get("nomutate")) + "\n"
     h = hashlib.sha1(blob.encode()).hexdigest()[:10]
     path = os.path.join(d, "templates-%s.ndjson" % h)
     if not os.path.exists(path):
